@@ -15,6 +15,9 @@ from vlib.common import COQ
 
 EFF_NAMES = ["STORAGE", "TRANSIENT", "MEMORY", "IMMUTABLES", "RETURNDATA", "LOG", "BALANCE", "EXTCODE", "FMP"]
 STATIC = ["C14/Venom.v", "C14/VenomProofs.v", "C14/VenomNames.v"]
+VAL_STATIC = ["C14/VenomSim.v", "C14/ValRUV.v", "C14/ValDFT.v", "C14/ValCopy.v", "C14/Liveness.v", "C14/PropsVal.v"]
+VALIDATED = ("RemoveUnusedVariablesPass", "AssignElimination", "SingleUseExpansion", "DFTPass")
+TV_MISMATCHES = set()        # (program, level, pass invocation index) reported by the vrun differential in this run
 FUEL = 4000
 
 
@@ -134,6 +137,10 @@ def build_proofs(ctx):
     if not b["ok"]:
         return False, "Venom.v" not in b.get("file", "").replace("VenomProofs.v", "").replace("VenomNames.v", ""), b
     b = ctx.coq_build_cached(["C14/GenEffects.v", "C14/PropsVenom.v"], deps=STATIC)
+    if not b["ok"]:
+        return False, True, b
+    # proved validators (static; they do not depend on generated files)
+    b = ctx.coq_build_cached(VAL_STATIC, deps=STATIC)
     if not b["ok"]:
         return False, True, b
     return True, True, None
@@ -424,8 +431,12 @@ def snapshot_bytecode(text, final=False, skip=()):
 
 
 # =============================================================================================== driver
-def _select(ctx, progs):
+def _select(ctx, progs, forced=()):
     """-> list of Group with pairs chosen; quick: a budget spread over pass classes, thorough: everything"""
+    forced_by = {}
+    for s in forced:
+        if s["fn"] == "runtime":
+            forced_by.setdefault((s["prog"], "hand" if progs[s["prog"]].get("hand") else s["level"]), []).append(s)
     rnd = ctx.rng("c14p-tv")
     quick = ctx.tier == "quick"
     by_group = {}
@@ -440,6 +451,11 @@ def _select(ctx, progs):
         if progs[name].get("hand"):
             by_group.setdefault((name, "hand"), []).extend(by_group.pop((name, lvl)))
     hand_keys = sorted(k for k in by_group if k[1] == "hand")
+    if quick and len(hand_keys) > 4:
+        # quick: four hand-written programs per run (rotating with the seed); all of them get the stage-1 checks anyway
+        forced_hand = [k for k in hand_keys if k in forced_by]
+        rot = [hand_keys[(ctx.seed * 3 + j) % len(hand_keys)] for j in range(3)]
+        hand_keys = sorted(set(rot + forced_hand))
     for k in hand_keys:
         by_group[k].sort(key=lambda s: s["idx"])
     keys = sorted(k for k in by_group if k[1] != "hand")
@@ -456,13 +472,20 @@ def _select(ctx, progs):
         names = sorted({k[0] for k in keys})
         rnd.shuffle(names)
         names.sort(key=lambda n: progs[n]["entry"]["prio"])
-        for k, n in enumerate(names[:11]):
+        # adaptive budget: on a loaded machine (stage 1 already slow) fewer groups
+        el = time.time() - ctx.t0 if hasattr(ctx, "t0") else 0
+        ng, nh = (9, 3) if el < 110 else (6, 2) if el < 200 else (4, 1)
+        hand_keys = hand_keys[:max(nh, len([k for k in hand_keys if k in forced_by]))]
+        for k, n in enumerate(names[:ng]):
             lv = [l for (m, l) in keys if m == n]
             if not lv:
                 continue
             lvl = "gas" if progs[n]["entry"].get("key") and "gas" in lv else lv[(k + ctx.seed) % len(lv)]
             chosen.append((n, lvl))
         keys = chosen
+    for k in sorted(forced_by):
+        if k not in keys and k not in hand_keys and k in by_group:
+            keys.append(k)
     groups = []
     cover = {}
     storages = [{}, {k: rnd.choice([1, 2, 3, 5, 7, 100, 2 ** 255, 2 ** 256 - 1]) for k in range(6)}]
@@ -479,10 +502,13 @@ def _select(ctx, progs):
             forced = [ss[0], ss[-1]]
             rest = [s for s in ss[1:-1]]
             rnd.shuffle(rest)
-            rest.sort(key=lambda s: cover.get(s["pass"], 0))
-            pick = forced + rest[:(9 if lvl == "hand" else 6)]
+            # passes with a proved validator (c14_pass_val) come last here
+            rest.sort(key=lambda s: (s["pass"] in VALIDATED, cover.get(s["pass"], 0)))
+            pick = forced + rest[:(7 if lvl == "hand" else 6)]
         else:
             pick = ss
+        want = {(f["idx"], f["pass"]) for f in forced_by.get((name, lvl), [])}
+        pick = pick + [s for s in ss if (s["idx"], s["pass"]) in want]
         for s in sorted({id(x): x for x in pick}.values(), key=lambda s: s["idx"]):
             if g.add(s):
                 cover[s["pass"]] = cover.get(s["pass"], 0) + 1
@@ -492,11 +518,13 @@ def _select(ctx, progs):
     return groups, cover
 
 
-def stage2(ctx, progs):
+def stage2(ctx, progs, built=None, forced=()):
+    """built: result of build_proofs when the caller already ran it; forced: snapshots (of `runtime`) that must be part of
+    the vrun differential (pairs a proved validator did not accept)"""
     from concurrent.futures import ThreadPoolExecutor
     global ADDR_WORD
     t0 = time.time()
-    ok, model_ok, b = build_proofs(ctx)
+    ok, model_ok, b = built if built is not None else build_proofs(ctx)
     ctx.log(f"pass stage2: proofs {'ok' if ok else 'BROKEN'} {time.time() - t0:.0f}s")
     stats = {"groups": 0, "pairs": 0, "evaluations": 0, "equal": 0, "unsupported": 0, "mismatch": 0, "why": {}, "per_pass": {},
              "tie_runs": 0, "tie_equal": 0, "tie_unsupported": 0, "tie_compile_failed": 0, "tie_mismatch": 0, "parser_rejected": 0}
@@ -504,7 +532,7 @@ def stage2(ctx, progs):
     if model_ok:
         from vlib.evm import Chain
         ADDR_WORD = int(Chain("cancun").set_code(None, b"\x00"), 16)
-        groups, cover = _select(ctx, progs)
+        groups, cover = _select(ctx, progs, forced)
         stats["groups"] = len(groups)
         rounds = 3 if ctx.tier == "quick" else 5
 
@@ -591,6 +619,7 @@ def _report_tv_mismatch(ctx, progs, g, p, i, j, tag):
         except Exception as e:  # noqa
             detail["evm"] = {"unconfirmed": f"{type(e).__name__}: {str(e)[:300]}"}
     key = entry.get("key") or f"C14:pass-tv:{snap['pass']}:{g.prog}"
+    TV_MISMATCHES.add((g.prog, snap["idx"], snap["pass"]))
     if confirmed:
         detail["expected"] = "pass output behaves like its input"
         ctx.violation("failing-input", f"pass {snap['pass']} changes the behaviour of function {snap['fn']} of {g.prog} "
